@@ -852,7 +852,10 @@ where
     fn verif_snapshot(&self) -> String {
         let mut wids: Vec<&WorkerId> = self.pool.keys().collect();
         wids.sort_unstable();
-        let workers: Vec<String> = wids.iter().map(|w| self.pool[*w].verif_snapshot()).collect();
+        let workers: Vec<String> = wids
+            .iter()
+            .map(|w| self.pool[*w].verif_snapshot())
+            .collect();
         let (lim, mode) = match self.discard_settings.get_limit_and_mode() {
             None => (-1, "none"),
             Some((l, DiscardMode::Newest)) => (l as i64, "newest"),
